@@ -836,7 +836,7 @@ example : shownChars ⟨2, 4⟩ (dec false 12300000 7) = "1.2300".toList := by d
 -- a negative figure that rounds to zero loses its sign (`Decimal::from_parts`); a stored `-0.000` keeps it
 example : shownChars ⟨2, 2⟩ (dec true 4 3) = "0.00".toList := by decide
 example : shownChars ⟨2, 2⟩ (dec true 0 3) = "-0.00".toList := by decide
--- F18 witness: 1000 at 28 decimals is 33 characters (the real formatter's 32-byte buffer overflowed)
+-- F20 witness: 1000 at 28 decimals is 33 characters (the real formatter's 32-byte buffer overflowed)
 example : (shownChars ⟨28, 28⟩ (dec false 1000 0)).length = 33 := by decide
 -- `Scale::from`
 example : Scale.ofRaw 3 2 = .err ∧ Scale.ofRaw 0 29 = .err ∧ Scale.ofRaw 28 28 = .ok ⟨28, 28⟩ := by decide
